@@ -112,7 +112,8 @@ RESUME_READS = ("pickle/latest", "pickle/iteration_", "last_finished_iteration",
 
 
 def nontrivial(e, ref):
-    return e["path"].startswith(RESUME_READS)
+    # temporary files (".tmp.<name>") are the new generation of the file resume reads
+    return e["path"].replace(".tmp.", "").startswith(RESUME_READS)
 
 
 def parent_pre(pk):
